@@ -364,9 +364,10 @@ func (f *MemFile) ReadDir(n int) (entries []fs.DirEntry, err error) {
 		return nil, io.EOF
 	}
 
-	end := start + n
-	if end > len(f.dirEntries) {
-		end = len(f.dirEntries)
+	// n may be as large as math.MaxInt: start + n must not overflow.
+	end := len(f.dirEntries)
+	if n < end-start {
+		end = start + n
 	}
 
 	f.dirIndex = end
@@ -441,9 +442,10 @@ func (f *MemFile) Readdirnames(n int) (names []string, err error) {
 		return nil, io.EOF
 	}
 
-	end := start + n
-	if end > len(f.dirNames) {
-		end = len(f.dirNames)
+	// n may be as large as math.MaxInt: start + n must not overflow.
+	end := len(f.dirNames)
+	if n < end-start {
+		end = start + n
 	}
 
 	f.dirIndex = end
